@@ -25,6 +25,17 @@ def get_cases(chk, quick, seed, n_pairs_quick=110, n_sim_quick=30, n_sim_thoroug
         fixed = [c for c in pairs if set(c['features']) in corners]
         rest = [c for c in pairs if set(c['features']) not in corners]
         cases = singles + fixed + rnd.sample(rest, min(n_pairs_quick, len(rest)))
+    # fixed TRIPLES (feature interactions that need three features; emitted by TLC with every other feature avoided)
+    triples = [('o_grpc_rest', 'o_rest_async', 'o_mixins'), ('o_grpc_rest', 'o_rest_async', 'm_lro'), ('f_deppkg', 'm_dep_request', 'o_grpc_rest')]
+    allf = sorted({f for c in cases for f in c['features']})
+    for t in triples:
+        avoid = '{' + ', '.join('"%s"' % f for f in allf if f not in t) + '}'
+        cs3, r4 = tlc.emit_cases('Features', f'CONSTANTS MaxFeatures = 3 MinFeatures = 3 Avoid = {avoid}\nSPECIFICATION Spec\nINVARIANT Emit\n',
+                                 deadlock=False, timeout=600)
+        cs3 = [c for c in cs3 if sorted(c['features']) == sorted(t)]
+        if only_conventional:
+            cs3 = [c for c in cs3 if c['conventional']]
+        cases += cs3
     sim, r3 = tlc.emit_cases('Features', 'Features.emit.sim.cfg', deadlock=False, simulate=(n_sim_quick if quick else n_sim_thorough) * 2,
                              depth=14, seed=seed, timeout=900)
     chk.tlc_runs.append(dict(label='Features -simulate', **r3.summary()))
